@@ -68,7 +68,7 @@ func init() {
 			}
 			nSys := len(paths) * len(gen.Battery)
 			return &harness.Plan{
-				N:     nSys + size(tier, 30000, 500000),
+				N:     nSys + size(tier, 80000, 1000000),
 				Setup: func(c *harness.Ctx) { hooksOn() },
 				Run: func(c *harness.Ctx, k int) {
 					var p *spec.Path
